@@ -1,5 +1,6 @@
 SPECIFICATION Spec
 CONSTANTS
+  Dim = 2
   MaxNodes = 3
   MinNodes = 1
   Widths = {3}
@@ -12,12 +13,16 @@ CONSTANTS
   AllowPool = FALSE
   AllowAdd = TRUE
   AllowDw = TRUE
+  AllowReuse = FALSE
   TupMode = "one"
   WType = "pl"
   SelMode = "all"
+  MaxHist = 0
+  Walk = "fixed"
   Lin = "fixed"
-  GuardF40 = TRUE
+  GuardF40 = FALSE
   GuardF05 = TRUE
+  GuardReuse = TRUE
 INVARIANT InvRepIsRep
 INVARIANT InvPlumb
 INVARIANT InvPlumbGroups
@@ -25,3 +30,4 @@ INVARIANT InvAddSameGrid
 INVARIANT InvOutputFloat
 INVARIANT InvCostExact
 INVARIANT InvSpecKeys
+INVARIANT InvPerInvocation
